@@ -169,6 +169,7 @@ class Ev:
                 same = all(a == b for a, b in zip(l.xs, r.xs))
                 if same or all((a - b).is_const() for a, b in zip(l.xs, r.xs)):
                     return same == isinstance(e.ops[0], ast.Eq)
+        if isinstance(e, ast.Name) and isinstance(s.env.get(e.id), Const) and isinstance(s.env[e.id].v, bool): return s.env[e.id].v
         raise Unsupported('condition ' + ast.unparse(e))
     def kind_of(s, v):
         if isinstance(v, SparseQ): return 'SparseQuaternionMatrix'
@@ -235,7 +236,7 @@ class Ev:
         if isinstance(v, QArr) and e.attr == 'shape': return Tup([v.c[0].rows, v.c[0].cols])
         if isinstance(v, QArr) and e.attr == 'dtype': return Kind('np.quaternion')
         if isinstance(v, RM) and e.attr == 'dtype': return Kind('np.float64')
-        if isinstance(v, Const) and v.v == 'module:np' and e.attr in ('quaternion', 'ndarray'): return Kind('np.' + e.attr)
+        if isinstance(v, Const) and v.v == 'module:np' and e.attr in ('quaternion', 'ndarray', 'float64', 'complex128', 'inf'): return Kind('np.' + e.attr)
         raise Unsupported('attribute ' + ast.unparse(e))
     def transpose(s, v):
         if isinstance(v, RM):
